@@ -36,11 +36,12 @@ def results_plans():
     ]
 
 
-def run_results(plan, seed=None, path=None, debug=False):
-    """Run one plan on the real aggregator under a random schedule (seed) or a model behaviour (path)."""
+def run_results(plan, seed=None, path=None, debug=False, fine=False):
+    """Run one plan on the real aggregator under a random schedule (seed) or a model behaviour (path).
+    fine=True: every file operation on a result or lock file is a scheduling point too (random schedules only)."""
     base = mkbase()
     scn = dict(plan["scn"])
-    w = World(scn, base, debug=debug)
+    w = World(scn, base, debug=debug, fault_mode=fine)
     out = w.out
     os.makedirs(os.path.join(out, "results"), exist_ok=True)
     diverged = None
